@@ -9,7 +9,9 @@ PROPS = ["c20_published", "c20_published_sites", "c20_site_verdict_needed", "c20
          "c20_stalled_subscriber", "c20_waiting_fanout_refuted", "c20_save_atomic", "c20_saves_last_renamed",
          "c20_backup_rename_refuted", "c20_startup_name_only", "c20_startup_leftover",
          "c20_issue_delivered_churn", "c20_count_keyed_table_refuted",
-         "c20_read_pure", "c20_history_reader_independent", "c20_mutating_reader_refuted"]
+         "c20_read_pure", "c20_history_reader_independent", "c20_mutating_reader_refuted",
+         "c20_expire_keeps_future", "c20_retention_keeps_young", "c20_code_u64_is_model", "c20_code_u64_keeps_future",
+         "c20_clock_before_retention_wraps", "c20_age_subtraction_same_in_past", "c20_age_subtraction_refuted"]
 
 TRUSTED = [
     "encoding/gob and bufio between saveEvents and loadEvents (run for real on every save/reload; the model has 'a complete document of generation g' or 'something the decoder rejects'); Dominator fsutil.CreateRenamingWriter/Close is modelled as its list of file operations (open f~, write, fsync, close, rename, remove) and run for real with injected faults; the file system itself is names -> contents with atomic rename (no directory fsync, no delayed allocation)",
